@@ -183,7 +183,7 @@ def ov(occ, name, head, expect, rules):
 
 UNIT = Unit(
     name='c11_dispatch',
-    props=['C11'],
+    props=['C11', 'C18'],
     blocks=[OPCODES],
     functions=[
         Fn(XOH, r'^\s+boolean\(double\s+theNumber\)', 'XObject_boolean_d', 'static bool XObject_boolean_d(double theNumber)',
